@@ -38,7 +38,7 @@ CHECKS = {
             TRUST, "3/C04"),
     "C05": ("exploration", "cross-product workload on addressing fields + reference predicate on the API boundary",
             "Runs the product InResponseTo x bearer InResponseTo x Destination x audience layout x Recipient x allow_unsolicited x conversation info x "
-            "destination pattern (thinned in quick, full in thorough, also re-signed), arriving binding x endpoint layout, and assertions carried as advice (plain, inside an encrypted assertion, encrypted on their own) through parse_authn_request_response, and SOAP-enveloped responses through the package's ECP helper; acceptance must imply "
+            "destination pattern (thinned in quick, full in thorough, also re-signed), arriving binding x endpoint layout, and assertions carried as advice (plain, inside an encrypted assertion, encrypted on their own) through parse_authn_request_response (POST, Redirect, and the artifact binding for the message an artifact was resolved to), and SOAP-enveloped responses through the package's ECP helper; acceptance must imply "
             "every addressing rule and the conforming cells must be accepted.",
             TRUST, "3/C05"),
     "C06": ("exploration", "exhaustive status/version table on the API boundary with an independent copy of the documented class table",
@@ -88,7 +88,7 @@ CHECKS = {
             "For all ~1150 element classes of all schema modules generates instance trees from the class tables (every attribute and child, "
             "cardinalities 1..3, bounded depth, hostile text incl. carriage returns, typed attribute values of types without a conversion, foreign children/attributes), serialises, parses back with the library and "
             "compares with a comparator that does not use SamlBase.__eq__; the second serialisation must be byte-identical, the other serialisers run as history on the same instance without changing it, and a stdlib parse "
-            "of the text must show children in table order and the foreign content present.",
+            "of the text must show children in table order and the foreign content present; the sweep over all classes is repeated in several orders and in a thread that has first been fed documents the typed parser refuses half way through, and with instances nested up to 150 deep.",
             PURE, "3/C12"),
     "C13": ("exploration", "table-driven constraint violation in isolation, oracle on valid_instance() in both directions",
             "For every element class builds the minimal instance satisfying all declared constraints and then violates each declared "
@@ -99,7 +99,7 @@ CHECKS = {
     "C14": ("exploration", "round-trip workload with independent readers (html.parser, urllib.parse, stdlib SOAP reader) + library decoder",
             "Packages library-made messages of several types (signed and unsigned, hostile content) and arbitrary payloads (sizes around every power of two up to 1-4 MiB) with "
             "Entity.apply_binding for POST, Redirect (also signed), SOAP, PAOS and artifact, as text and as bytes, hostile RelayStates and destinations with/without/with an empty query, a fragment or HTML-special characters, hand-written message texts (CDATA, declarations, prefixes, character references), message objects through both envelope builders, artifact endpoint indexes; an "
-            "independent reader must find exactly the expected form fields / URL parameters / SOAP body, the package's receiving-end decoder (httputil.unpack_any on the WSGI request a browser would submit) and Entity.unravel must return the "
+            "independent reader must find exactly the expected form fields / URL parameters / SOAP body, the package's receiving-end decoder (httputil.unpack_any on the WSGI request a browser would submit, POST body or GET query) and Entity.unravel must return the "
             "original (bytes for POST/Redirect, element-equal for SOAP).",
             PURE, "3/C14"),
     "C15": ("exploration", "independent RSA verification + bounded-exhaustive histories + systematic schedule exploration (sys.monitoring gates, CHESS-style DFS)",
@@ -107,7 +107,7 @@ CHECKS = {
             "query octets) under all 12 RSA fixture certificates and three without an RSA key (EC, Ed25519, DSA), verified by the peer and by the signer itself; compares verify_redirect_signature with the independent verdict over ~30 single-parameter "
             "mutations; replays every history of obtain/sign/bind/verify steps up to a bounded length for entities with different keys; and explores "
             "thread interleavings systematically: sys.monitoring PY_START/LINE events in RSACrypto.get_signer and RSASigner.sign are gates, a "
-            "controller enumerates all schedules depth first (entry-level: all; line-level: preemption-bounded), plus free-running threads.",
+            "controller enumerates all schedules depth first (entry-level: all; line-level: preemption-bounded), plus free-running threads, key roll-over at one path and generations of entities that are used, dropped and collected.",
             PURE, "3/C15"),
     "C16": ("exploration", "generated document sets under a virtual clock + dictionary model of the declarations as oracle; signed loads through a stubbed HTTP loader with tool-log oracle",
             "Loads generated federation document sets (1..3 sources, mixed roles, endpoints, indexes, keys by use, entity categories, requested "
@@ -125,19 +125,19 @@ CHECKS = {
             TRUST, "3/C17"),
     "C18": ("exploration", "reference-model monitor over operation histories (bounded-exhaustive + random), invariants after every step",
             "Replays every operation history up to a bounded depth over 2 users x 2 SPs (abstract-state pruned), long random histories on "
-            "dict- and shelve-backed IdentDB (also opened through Server with restarts; removal operations must be carried out, not just fail without effect), Server-level login histories over every NameIDPolicy shape, hostile field contents, pairs built to collide under an unquoted encoding (code and code_binary) and the adversarial user-id class against a dictionary model; after each "
+            "dict- and shelve-backed IdentDB (also opened through Server with restarts; removal operations must be carried out, not just fail without effect), Server-level login histories over every NameIDPolicy shape (also naming another SP's qualifier) with attribute responses in between, hostile field contents, pairs built to collide under an unquoted encoding (code and code_binary) and the adversarial user-id class against a dictionary model; after each "
             "step every live identifier must resolve to its user only, withdrawn ones to nobody, persistent identifiers must be stable and "
             "distinct, and code/decode must be reversible and collision-free.",
             PURE, "3/C18"),
     "C19": ("exploration", "reference-model monitor under a virtual clock, memory and file cache in lock step",
             "Replays every operation sequence up to a bounded depth (set with past/future expiry, reset, delete, clock advance) and long random "
             "histories (hostile attribute values, subjects differing in one field, file reopen, process time zones other than UTC, up to 400 sources per subject, callers that write into what a query handed them, concurrent threads on the memory backend) on Cache and Population, memory and file backed, "
-            "comparing every query result and exception class with a dictionary model after each step.",
+            "comparing every query result and exception class with a dictionary model after each step; a copy of the cache file as it is, opened by a second cache, must agree with the model after every operation that has returned.",
             PURE, "3/C19"),
     "C20": ("fault_enumeration", "fault-injecting external tool (plan via environment) + offline oracle over the tool event log",
             "Enumerates fault plans (site kind x first/second/every invocation x 18 verification faults + 36 byte-exact garbled diagnostics, 10 sign/encrypt/decrypt faults, tool "
             "missing / not executable / a directory) over response, assertion, both, request (authn, logout, attribute query, manage-name-id), logout-response and in-ciphertext verification (also several encrypted assertions), statement signing, "
-            "assertion encryption and decryption with the first or second key, on valid and tampered messages; entities built under a plan that hits the n-th tool run of any kind (informational runs included) then receive outsider-signed, valid and tampered messages in sequence. The driver marks injected events; "
+            "assertion encryption and decryption with the first or second key, on valid and tampered messages; entities built under a plan that hits the n-th tool run of any kind (informational runs included) then receive outsider-signed, valid and tampered messages in sequence; sign/encrypt runs that write their input through and exit 1; EncryptedAttribute sites. The driver marks injected events; "
             "an accepted message needs a genuine un-faulted OK per required level, a tampered message is never accepted, an identity needs a "
             "genuine decryption, and a sign/encrypt run without result must raise.",
             TRUST, "3/C20"),
